@@ -35,6 +35,12 @@ def norm(e, clone_transparent=False):
             if r[0] == 'agg' and isinstance(r[1], tuple) and r[1][0] == 'adt' and r[1][2] in ('Ok', 'Some') and len(r[2]) == 1:
                 return norm(r[2][0], clone_transparent)
         return ('fld', ('down', inner, var), e[2])
+    if t == 'fld' and isinstance(e[1], tuple) and e[1] and str(e[2]).isdigit():
+        # (a, b).0 = a : a field of a tuple built in place (a helper returning a pair, inlined)
+        inner = norm(e[1], clone_transparent)
+        if inner[0] == 'agg' and inner[1] == 'tuple' and int(e[2]) < len(inner[2]):
+            return norm(inner[2][int(e[2])], clone_transparent)
+        return ('fld', inner, e[2])
     if t == 'ite':
         c, a, b = norm(e[1], clone_transparent), norm(e[2], clone_transparent), norm(e[3], clone_transparent)
         # if x < y { x } else { y }  and friends: the minimum / maximum of the two operands
